@@ -12,6 +12,7 @@ import CaddyModel.C09.SchedLemmas
 import CaddyModel.C09.FuelLemmas
 import CaddyModel.C09.IterLemmas
 import CaddyModel.C09.FuelDynLemmas
+import CaddyModel.C09.StreamLemmas
 import CaddyModel.C09.Concrete
 import CaddyModel.C09.Witness
 import CaddyModel.Gen.ProxyCount
@@ -554,6 +555,36 @@ theorem sched_dyn_never_runs_out_of_fuel (d : DState) (r : Nat) (q : Req) (hq : 
 example : ((sstep dinit (.load [0, 1] { pA with retries := 8, dynamic := true } [])).bind fun x =>
     (sstep { x.1 with down := [0, 1] } (.newReq true)).map fun y => (y.2, (y.1.s.reqs.map (·.retries)), y.1.s.cfgs.length)) =
     some ("err", [8], 10) := by decide
+
+/-- **response_header_keeps_request_in_flight** — when the response header arrives and the body is
+    still to be copied (`sb`), or the backend switches protocols and the upgraded connection stays
+    open (`wu`), the status / latency strikes are counted but the request stays in the in-flight
+    place with every in-flight count unchanged; only its own `finish` — the end of the body, of the
+    upgraded connection, or the client going away — takes it out (`leaves_in_flight_only_by_finish`).
+    "Currently being sent to it" includes the whole response. -/
+theorem response_header_keeps_request_in_flight {d d' : DState} {ev : String} {r : Nat}
+    (hs : sstep d (.streamBegin r) = some (d', ev) ∨ sstep d (.wsBegin r) = some (d', ev)) :
+    isParked d'.s r = true ∧ d'.s.inflight = d.s.inflight := by
+  rcases hs with hs | hs
+  all_goals
+    simp only [sstep] at hs
+    split at hs
+    next hc =>
+      have hp : isParked d.s r = true := by
+        simp only [Bool.and_eq_true] at hc
+        first | exact hc.1 | exact hc.1.1
+      split at hs
+      · simp at hs
+      next q hq =>
+        split at hs
+        · simp at hs
+        next s1 h1 =>
+          simp at hs; obtain ⟨hd, _⟩ := hs; subst hd
+          exact strikesN_parked hp h1
+    · simp at hs
+
+example : ((runSteps dinit [.load [0] { pA with badStatus := [200] } [], .newReq true, .streamBegin 0]).map fun d =>
+    (isParked d.s 0, d.s.inflight 0, d.s.fails 0, d.streaming)) = some (true, 1, 1, [0]) := by decide
 
 /-- …including the final quiescent state -/
 theorem quiesce_state_reachable {d : DState} (h : Reachable d.s) : Reachable (quiesce d) := quiesce_reachable h
